@@ -101,6 +101,24 @@ func c17bConfigs(tier string) []vmc.Cfg {
 	return out
 }
 
+// C14 (buffered wrapper): Close while the worker is inside the wrapped provider, at every batch
+// boundary of short operation sequences; the same driver as the C17 wrapper part.
+func c14bConfigs(tier string) []vmc.Cfg {
+	var out []vmc.Cfg
+	d := 2
+	if tier == "thorough" {
+		d = 3
+	}
+	for _, b := range []int{1, 2, 1024} {
+		out = append(out, vmc.Cfg{Name: fmt.Sprintf("buffered-close/batch%d/ops<=%d", b, d), Budget: 1000, Data: c17bCfg{part: "wrapper", depth: d, batch: b, restarts: 2, ticks: 1, nkeys: 2}})
+	}
+	return out
+}
+
+func TestVMC_C14buffered(t *testing.T) {
+	vmc.Main(t, vmc.Harness{ID: "C14", Configs: c14bConfigs, Run: c17bRun, Bubble: true, ShardSubtree: true})
+}
+
 func TestVMC_C17buffered(t *testing.T) {
 	vmc.Main(t, vmc.Harness{ID: "C17", Configs: c17bConfigs, Run: c17bRun, Bubble: true, ShardSubtree: true})
 }
@@ -432,6 +450,11 @@ func c17bWrapper(x *vmc.X, c c17bCfg, keys []mh.Multihash) {
 							failed = true
 							return
 						}
+					}
+					if left := s.ParkedOthers(); len(left) > 0 {
+						x.Failf("C14/buffered/close-returned-early", "%v: Close returned while the wrapper's worker is still inside %v", desc, left)
+						failed = true
+						return
 					}
 					if cerr != nil {
 						x.Failf("C17/buffered/close-error", "%v: %v", desc, cerr)
